@@ -57,7 +57,7 @@ func (S) Info() scen.Info {
 			"goroutine scheduling":   "stub: single walker task under the seeded scheduler",
 		},
 		QuickUnits: 2500, ThoroughUnits: 150000, QuickSecs: 240, ThoroughSecs: 1200,
-		ProbeKeys: []string{"probe.budget_cut_mid_block", "probe.linkbudget_cut", "probe.startat_inside_linked_block", "probe.startat_skipped_load", "probe.once_pruned", "probe.skipme_pruned", "probe.resume_concat_checked", "probe.w0_ended_in_error", "probe.repeated_link", "probe.matching_walk", "probe.transform_budget_cut", "probe.walklocal_budget_cut"},
+		ProbeKeys: []string{"probe.transform_once_cut", "probe.transform_linkbudget_cut", "probe.transform_skip_cut", "probe.budget_cut_mid_block", "probe.linkbudget_cut", "probe.startat_inside_linked_block", "probe.startat_skipped_load", "probe.once_pruned", "probe.skipme_pruned", "probe.resume_concat_checked", "probe.w0_ended_in_error", "probe.repeated_link", "probe.matching_walk", "probe.transform_budget_cut", "probe.walklocal_budget_cut"},
 		EventsKey: "events",
 	}
 }
@@ -264,7 +264,7 @@ func (w *world) walk(matching bool, budget *traversal.Budget, startAt datamodel.
 	return res
 }
 
-var ctlNames = []string{"none", "NodeBudget", "LinkBudget", "StartAtPath", "LinkVisitOnlyOnce", "SkipMe", "Resume", "TransformNodeBudget", "WalkLocalNodeBudget"}
+var ctlNames = []string{"none", "NodeBudget", "LinkBudget", "StartAtPath", "LinkVisitOnlyOnce", "SkipMe", "Resume", "TransformNodeBudget", "WalkLocalNodeBudget", "TransformLinkControls"}
 
 func (S) RunTape(t *sim.Tape, st *sim.Stats, keepLog bool) *sim.Outcome {
 	o := &sim.Outcome{}
@@ -708,6 +708,138 @@ func (S) RunTape(t *sim.Tape, st *sim.Stats, keepLog bool) *sim.Outcome {
 				cut = true
 				st.Inc("probe.transform_budget_cut")
 			}
+		case 9: // the transforming walk under the link controls: visit-once, link budget, a loader that skips
+			if w0.err != nil || matching {
+				return
+			}
+			tw := func(once bool, b *traversal.Budget, skip map[string]bool) (paths []string, loads []ev, err error, pan string) {
+				cfg := &traversal.Config{LinkSystem: w.lsys, LinkVisitOnlyOnce: once, LinkTargetNodePrototypeChooser: func(datamodel.Link, linking.LinkContext) (datamodel.NodePrototype, error) {
+					return basicnode.Prototype.Any, nil
+				}}
+				scratch := []ev{}
+				func() {
+					defer func() {
+						if r := recover(); r != nil {
+							if _, ok := r.(interface{ IsStepCap() }); ok {
+								panic(r)
+							}
+							pan = fmt.Sprint(r)
+						}
+					}()
+					w.cur = &scratch
+					w.skip = skip
+					_, err = traversal.Progress{Cfg: cfg, Budget: b}.WalkTransforming(w.g.RootNode, w.sel, func(p traversal.Progress, n datamodel.Node) (datamodel.Node, error) {
+						paths = append(paths, p.Path.String())
+						w.s.Yield("callback")
+						return n, nil
+					})
+				}()
+				w.skip = nil
+				for _, e := range scratch {
+					if e.K == 'l' {
+						loads = append(loads, e)
+					}
+				}
+				return
+			}
+			t0, l0, err0, pan0 := tw(false, nil, nil)
+			if pan0 != "" || err0 != nil || len(t0) > 300 || basicStore {
+				return // no reference run to compare with
+			}
+			isSubseq := func(a, b []string) bool {
+				j := 0
+				for _, x := range a {
+					for j < len(b) && b[j] != x {
+						j++
+					}
+					if j == len(b) {
+						return false
+					}
+					j++
+				}
+				return true
+			}
+			switch {
+			case pos == 0:
+				got, loads, err, pan := tw(true, nil, nil)
+				seen := map[string]bool{}
+				for _, e := range loads {
+					if seen[e.Link] {
+						o.Fail("once-loaded-twice", sig, "WalkTransforming with LinkVisitOnlyOnce loaded link …%x more than once (loads %v)", tail(e.Link), render(loads))
+						break
+					}
+					seen[e.Link] = true
+				}
+				switch {
+				case pan != "" || err != nil:
+					o.Fail("restricted-walk-error", sig, "WalkTransforming with LinkVisitOnlyOnce ended with err=%v panic=%s (the unrestricted run succeeds)", err, pan)
+				case !isSubseq(got, t0):
+					o.Fail("restricted-walk-differs", sig, "WalkTransforming with LinkVisitOnlyOnce made callbacks %q, not a subsequence of the unrestricted run's %q", got, t0)
+				}
+				if len(loads) < len(l0) {
+					cut = true
+					st.Inc("probe.transform_once_cut")
+				}
+			case pos-1 <= len(l0)+1:
+				K := pos - 1
+				got, loads, err, pan := tw(false, &traversal.Budget{NodeBudget: 1 << 40, LinkBudget: int64(K)}, nil)
+				var be *traversal.ErrBudgetExceeded
+				isBudget := errors.As(err, &be)
+				wantLoads := l0
+				if K < len(l0) {
+					wantLoads = l0[:K]
+				}
+				switch {
+				case pan != "":
+					o.Fail("panic", sig, "WalkTransforming with LinkBudget=%d panicked: %s", K, pan)
+				case !sameEvents(loads, wantLoads):
+					o.Fail("restricted-walk-differs", sig, "WalkTransforming with LinkBudget=%d loaded %v, the first %d loads of the unrestricted run are %v", K, render(loads), K, render(wantLoads))
+				case len(got) > len(t0) || strings.Join(got, "\x00") != strings.Join(t0[:len(got)], "\x00"):
+					o.Fail("restricted-walk-differs", sig, "WalkTransforming with LinkBudget=%d made callbacks %q, not a prefix of the unrestricted run's %q", K, got, t0)
+				case K < len(l0) && !isBudget:
+					o.Fail("restricted-walk-error", sig, "WalkTransforming with LinkBudget=%d of %d loads ended with %v, not a budget error", K, len(l0), err)
+				case K >= len(l0) && (err != nil || len(got) != len(t0)):
+					o.Fail("restricted-walk-error", sig, "WalkTransforming with a sufficient LinkBudget=%d (of %d loads) ended with %v after %d of %d callbacks", K, len(l0), err, len(got), len(t0))
+				}
+				if K < len(l0) {
+					cut = true
+					st.Inc("probe.transform_linkbudget_cut")
+				}
+			default:
+				if len(l0) == 0 {
+					return
+				}
+				victim := l0[(pos-len(l0)-3)%len(l0)]
+				got, loads, err, pan := tw(false, nil, map[string]bool{victim.Link: true})
+				// the loader declines every block behind that link: no callback at or below any place it sits
+				var under []string
+				for _, e := range l0 {
+					if e.Link == victim.Link {
+						under = append(under, e.Path)
+					}
+				}
+				var want []string
+				for _, p := range t0 {
+					drop := false
+					for _, u := range under {
+						if p == u || strings.HasPrefix(p, u+"/") {
+							drop = true
+						}
+					}
+					if !drop {
+						want = append(want, p)
+					}
+				}
+				switch {
+				case pan != "" || err != nil:
+					o.Fail("restricted-walk-error", sig, "WalkTransforming with a loader that skips link …%x ended with err=%v panic=%s", tail(victim.Link), err, pan)
+				case strings.Join(got, "\x00") != strings.Join(want, "\x00"):
+					o.Fail("restricted-walk-differs", sig, "WalkTransforming with a loader that skips link …%x (at %q) made callbacks %q; the unrestricted run without that block's subtree is %q", tail(victim.Link), under, got, want)
+				}
+				_ = loads
+				cut = true
+				st.Inc("probe.transform_skip_cut")
+			}
 		case 6: // budget N, then resume at the path the error carries
 			N := pos
 			if N >= info.V || matching {
@@ -823,5 +955,12 @@ func (S) Unit(u *scen.Unit) {
 	for n := 0; n < 24; n++ {
 		u.Exec(map[string]int{"ctl.kind": 8, "ctl.pos": n, "ctl.matching": 0})
 		u.St.Inc("enum.walklocal_budget")
+	}
+	if !bi.Err0 && bi.K > 0 {
+		// link controls under the transforming walk: visit-once, every link budget, every link skipped
+		for n := 0; n <= 2*bi.K+4 && n < 40; n++ {
+			u.Exec(map[string]int{"ctl.kind": 9, "ctl.pos": n, "ctl.matching": 0})
+			u.St.Inc("enum.transform_link_controls")
+		}
 	}
 }
